@@ -65,7 +65,7 @@ def run(cx: Cx):
     sites = cx.effects.sites_of(SLOC)
     for s in sites:
         v = s.ev.data.get('value')
-        if s.fn.qualname == CORE + 'Model.__init__':
+        if s.owner_q == CORE + 'Model.__init__':
             if s.kind == 'rebind' and v == RUN:
                 cx.ok('R-DISC', 'model starts RUNNING', where=s.where, function=s.fn.qualname)
             else:
@@ -79,7 +79,7 @@ def run(cx: Cx):
                          f"(found {v!r}); completion would not be final", where=s.where)
     cx.floor('status write sites', len(sites), 2)
     comp = cx.fn(CORE + 'Model.complete')
-    if not any(s.fn.qualname == comp.qualname for s in sites):
+    if not any(s.owner_q == comp.qualname for s in sites):
         cx.violation('R-DISC', comp.qualname, 'complete-stores-complete', "Model.complete() does not store COMPLETE",
                      where=comp.where)
 
